@@ -244,3 +244,124 @@ def run(ctx: Ctx) -> None:
         first = re.search(r"\(-> ([0-9.e+-]+), <- ([0-9.e+-]+)\)", code)
         if first and not rel_close(float(first.group(1)), float(x.std()), 0.01):
             ctx.violation("C18:analyse-scale", "analyse_module reports a wrong input scale", key, [first.group(1), float(x.std())])
+
+    # ---- analyse_module on modules that mix tensors inside and outside the autograd graph: every float tensor is
+    #      annotated with its true forward scale and its true backward scale ("n/a" iff no gradient reaches it);
+    #      non-float values carry no annotation
+    import torch.nn.functional as F_
+
+    class MixedNet(nn.Module):
+        def __init__(self, din: int, dh: int, flags: Dict[str, bool]) -> None:
+            super().__init__()
+            self.lin = nn.Linear(din, dh)
+            self.w = nn.Parameter(torch.randn(dh))
+            self.register_buffer("shift", torch.randn(dh))
+            self.flags, self.dh = flags, dh
+
+        def forward(self, x, pos):  # type: ignore[no-untyped-def]
+            f = self.flags
+            h = F_.linear(x, self.lin.weight, self.lin.bias)
+            a = torch.tanh(h)                                   # fan-out
+            out = torch.mul(a, self.w)
+            if f["buffer"]:
+                out = torch.add(out, self.shift)                # registered buffer: float, no grad
+            if f["gate"]:
+                out = torch.mul(out, torch.gt(a, 0).to(x.dtype))        # bool intermediate cast to float: no grad
+            if f["onehot"]:
+                out = torch.add(out, F_.one_hot(torch.argmax(a, dim=-1), self.dh).to(x.dtype))   # int -> float: no grad
+            if f["pos"]:
+                out = torch.add(out, pos)                       # float input that does not require grad
+            return torch.sin(out)
+
+    class Probe(torch.fx.Interpreter):
+        def __init__(self, gm):  # type: ignore[no-untyped-def]
+            super().__init__(gm)
+            self.fwd: Dict[str, Any] = {}
+            self.leaf: Dict[str, Any] = {}
+            self.grads: Dict[str, Any] = {}
+            self.kinds: Dict[str, str] = {}
+
+        def run_node(self, n):  # type: ignore[no-untyped-def]
+            out = super().run_node(n)
+            if n.op != "output" and isinstance(out, torch.Tensor):
+                self.kinds[n.name] = "float" if out.is_floating_point() else "nonfloat"
+                if out.is_floating_point():
+                    self.fwd[n.name] = float(out.detach().std())
+                    if out.requires_grad:
+                        if out.is_leaf:
+                            self.leaf[n.name] = out
+                        else:
+                            out.register_hook(lambda g, nm=n.name: self.grads.__setitem__(nm, float(g.std())))
+            return out
+
+    ann_re = re.compile(r"\(-> ([^,]+), <- ([^)]+)\)")
+
+    def shown_ok(shown: str, true: Optional[float]) -> bool:
+        shown = shown.strip()
+        if shown == "n/a":
+            return true is None
+        if true is None:
+            return False
+        try:
+            v = float(shown)
+        except ValueError:
+            return False
+        return (v != v and true != true) or abs(v - true) <= 1e-2 * abs(true) + 1e-12
+
+    for i in range(6 if quick else 120):
+        flags = {k: rng.random() < 0.6 for k in ("buffer", "gate", "onehot", "pos")}
+        din, dh, bsz = rng.choice([3, 6]), rng.choice([4, 5, 8]), rng.choice([7, 9])
+        key = {"path": "analyse_module", "family": "mixed-grad", "flags": flags, "dims": [bsz, din, dh]}
+        ctx.count(key, bucket="analyse_module/mixed")
+        torch.manual_seed(1000 + i)
+        net = MixedNet(din, dh, flags)
+        x = torch.randn(bsz, din)
+        x[0, : din // 2] = 0.0
+        pos = torch.randn(bsz, dh)
+        bwd = torch.randn(bsz, dh)
+        code = None
+        with ctx.guard("C18:analyse_module", key):
+            code = analyse_module(copy.deepcopy(net), (x.clone().requires_grad_(True), pos), bwd, syntax_highlight=False)
+        if code is None:
+            continue
+        pr = Probe(torch.fx.symbolic_trace(copy.deepcopy(net)))
+        xr = x.clone().requires_grad_(True)
+        pr.run(xr, pos).backward(bwd)
+        for nm, t in pr.leaf.items():
+            if t.grad is not None:
+                pr.grads[nm] = float(t.grad.std())
+        shown: Dict[str, Any] = {}
+        for line in code.splitlines():
+            ls = line.strip()
+            if ls.startswith("def "):
+                names = [a.strip().split(":")[0].strip() for a in ls.split("(", 1)[1].split(")")[0].split(",")][1:]
+                anns = ann_re.findall(ls.split("):", 1)[1]) if "):" in ls else []
+                fl = [n_ for n_ in names if pr.kinds.get(n_) == "float"]
+                if len(anns) != len(fl):
+                    ctx.violation("C18:analyse-inputs", "not every floating-point input is annotated on the signature line",
+                                  key, {"inputs": fl, "annotations": anns})
+                else:
+                    shown.update(dict(zip(fl, anns)))
+                continue
+            m_ = re.match(r"(\w+) = ", ls)
+            if m_:
+                a_ = ann_re.findall(ls.split(";", 1)[1]) if ";" in ls else []
+                shown[m_.group(1)] = a_[0] if a_ else None
+        for nm, kind in pr.kinds.items():
+            if nm not in shown:
+                if kind == "float" and nm not in ("x", "pos"):
+                    ctx.violation("C18:analyse-missing", f"float tensor `{nm}` does not appear in the analysed code", key)
+                continue
+            ann = shown[nm]
+            if kind == "nonfloat":
+                if ann is not None:
+                    ctx.violation("C18:analyse-nonfloat", f"non-float value `{nm}` is annotated", key, ann)
+                continue
+            if ann is None:
+                ctx.violation("C18:analyse-unannotated", f"float tensor `{nm}` carries no scale annotation "
+                              f"(true -> {pr.fwd[nm]:.3}, <- {pr.grads.get(nm, 'n/a')})", key)
+                continue
+            if not shown_ok(ann[0], pr.fwd[nm]):
+                ctx.violation("C18:analyse-fwd", f"forward scale of `{nm}`: shown {ann[0]}, true {pr.fwd[nm]:.4}", key)
+            if not shown_ok(ann[1], pr.grads.get(nm)):
+                ctx.violation("C18:analyse-bwd", f"backward scale of `{nm}`: shown {ann[1]}, true {pr.grads.get(nm, 'n/a')}", key)
